@@ -166,13 +166,26 @@ def _apply_maps(prog, an, elem, maps):
 
 
 def _names(sy, atoms, enum, elem_name):
-    out = set()
-    for a in atoms:
-        s = atom_str(a)
+    from .sym import rel_atom
+
+    def ren(s):
         if enum:
             s = s.replace(elem_name + ".0", "i").replace(elem_name + ".1", "x")
-        s = s.replace(elem_name, "x")
-        out.add(s)
+        return s.replace(elem_name, "x")
+    out = set()
+    for a in atoms:
+        if a[0] == "rel" and a[3] in ("==", "!="):
+            # rename inside the polynomial and take the canonical sign again (it depends on the symbol names)
+            m2 = {}
+            for mono, c in a[2].m.items():
+                k2 = tuple(sorted(ren(x) for x in mono))
+                m2[k2] = m2.get(k2, 0) + c
+            try:
+                out.add(rel_atom(Poly({k: v for k, v in m2.items() if v != 0}), a[3])[1])
+                continue
+            except Exception:
+                pass
+        out.add(ren(atom_str(a)))
     return out
 
 
@@ -279,3 +292,144 @@ def forall_facts(prog, an, sy, target):
         if common:
             facts.append(Forall(_seq_key(sy, base, lo, hi), enum, common, head, "for-loop", base))
     return facts
+
+
+# ---------------------------------------------------------------------------------------------------------------
+# rewriting the rows of a guard/value table into the quantified vocabulary
+
+def row_rewrites(prog, an, sy):
+    """descriptions of the loops / iterator consumers of a body whose outcome atoms can be replaced:
+    [{"none": atom string meaning 'all elements passed', "some": atom string meaning 'an element was singled out',
+      "witness": name of that element in atoms/values, "seq": printable sequence, "forall": [atoms over x],
+      "exists": [atoms over x that hold for the witness] or None (loop: the path's own atoms describe it)}]"""
+    body = an.body
+    out = []
+
+    def seq_str(k):
+        return "%s[%s..%s]" % (k[0], k[1], k[2] if k[2] is not None else "")
+    for bb, t in body.calls():
+        s = short(cname(t))
+        if s not in ("Iterator::find", "Iterator::position", "Iterator::any", "Iterator::all") or len(t["args"]) != 2:
+            continue
+        an.terms._pos = (bb, "t")
+        ps = parse_seq(prog, an, sy, an.terms.operand(t["args"][0]))
+        if ps is None:
+            continue
+        base, lo, hi, enum, maps = ps
+        ci = closure_info(prog, an, strip(an.terms.operand(t["args"][1])))
+        if not ci:
+            continue
+        rets = closure_ret(prog, ci[0])
+        if len(rets) != 1:
+            continue
+        elem = _apply_maps(prog, an, ELEM, maps)
+        if elem is None:
+            continue
+        pred = _subst(subst_upvars(rets[0], ci[1]), ("carg", 0), elem)
+        try:
+            pos_ats = _names(sy, sy.bool_atoms(pred, True), enum, "arg90")
+            neg_ats = _names(sy, sy.bool_atoms(pred, False), enum, "arg90")
+        except Exception:
+            continue
+        call = an.terms.call_term(t, bb)
+        nm = sy.name(call)
+        sq = seq_str(_seq_key(sy, base, lo, hi))
+        if s in ("Iterator::find", "Iterator::position"):
+            wit = "(%s as Some).0" % nm if s == "Iterator::find" and not maps else None
+            out.append({"none": "%s is None" % nm, "some": "%s is Some" % nm, "witness": wit, "seq": sq, "enum": enum,
+                        "forall": sorted(neg_ats), "exists": sorted(pos_ats), "index": "(%s as Some).0" % nm if s == "Iterator::position" else None,
+                        "base": sy.name(base)})
+        elif s == "Iterator::any":
+            out.append({"none": "pred %s False" % nm, "some": "pred %s True" % nm, "witness": None, "seq": sq, "enum": enum,
+                        "forall": sorted(neg_ats), "exists": sorted(pos_ats), "index": None, "base": sy.name(base)})
+        else:
+            out.append({"none": "pred %s True" % nm, "some": "pred %s False" % nm, "witness": None, "seq": sq, "enum": enum,
+                        "forall": sorted(pos_ats), "exists": sorted(neg_ats), "index": None, "base": sy.name(base)})
+    for (tail, head) in body.back_edges():
+        loop = body.natural_loop(tail, head)
+        nexts = [(bb, t) for bb, t in body.calls() if bb in loop and short(cname(t)) == "Iterator::next"]
+        if len(nexts) != 1:
+            continue
+        nbb, nt = nexts[0]
+        an.terms._pos = (nbb, "t")
+        ps = parse_seq(prog, an, sy, an.terms.operand(nt["args"][0]))
+        if ps is None or ps[4]:
+            continue
+        base, lo, hi, enum, maps = ps
+        paths = loop_iteration_paths(an, head)
+        if not paths or len(paths) > 16:
+            continue
+        ncall = an.terms.call_term(nt, nbb)
+        nname = sy.name(ncall)
+        ename = sy.name(("field", ("downcast", ncall, "Some"), 0))
+        conts = []
+        for path in paths:
+            ats = path_atoms(sy, path)
+            keep = [a for a in ats if not (a[0] in ("some", "none") and a[1] == nname)]
+            conts.append(_names(sy, keep, enum, ename))
+        common = set.intersection(*conts) if conts else set()
+        # a loop with stores to outer state is more than a check; its exhaustion atom still only says "all passed"
+        out.append({"none": "%s is None" % nname, "some": "%s is Some" % nname, "witness": ename, "seq": seq_str(_seq_key(sy, base, lo, hi)), "enum": enum,
+                    "forall": sorted(common), "exists": None, "index": None, "base": sy.name(base)})
+    return out
+
+
+def rewrite_row(rws, atoms, value):
+    """atoms (list of str), value (str) of one path in the quantified vocabulary"""
+    atoms = list(atoms)
+    for r in rws:
+        tag = "%s@%s" % ("(i,x)" if r["enum"] else "x", r["seq"])
+        if r["none"] in atoms and r["forall"]:
+            atoms.remove(r["none"])
+            atoms.append("forall %s in %s: %s" % ("(i, x)" if r["enum"] else "x", r["seq"], " && ".join(r["forall"])))
+        elif r["some"] in atoms:
+            wit = r["witness"]
+            idx = r["index"]
+            uses = (wit and any(wit in a for a in atoms + [value])) or (idx and any(idx in a for a in atoms + [value]))
+            atoms.remove(r["some"])
+            ex = r["exists"]
+            if ex is not None:
+                atoms += [("exists in %s: " % r["seq"]) + a for a in ex] if not (wit or idx) else [_wit(a, tag, r) for a in ex]
+
+            def rep(s_):
+                if wit:
+                    if r["enum"]:
+                        s_ = s_.replace(wit + ".0", "i@" + r["seq"]).replace(wit + ".1", tag)
+                    s_ = s_.replace(wit, tag)
+                if idx:
+                    # S[position] is the element found, the position itself is its index
+                    s_ = s_.replace("Index::index(%s,%s)" % (r["base"], idx), tag).replace(idx, "i@" + r["seq"])
+                return s_
+            atoms = [rep(a) for a in atoms]
+            value = rep(value)
+    return sorted(set(_canon_diff(a) if "@" in a else a for a in atoms)), value
+
+
+def _canon_diff(a):
+    """`A - B == 0` / `!= 0` with two plain terms: the terms in lexicographic order (the sign of such an atom is an
+    artefact of the symbol names, which the witness renaming changes)"""
+    for op in (" == 0", " != 0"):
+        if a.endswith(op):
+            body_ = a[:-len(op)]
+            depth, cut = 0, []
+            for i, ch in enumerate(body_):
+                if ch in "([{<":
+                    depth += 1
+                elif ch in ")]}>":
+                    depth -= 1
+                elif depth == 0 and body_[i:i + 3] in (" - ", " + "):
+                    cut.append(i)
+            if len(cut) == 1 and body_[cut[0]:cut[0] + 3] == " - " and not body_.startswith("-"):
+                x, y = body_[:cut[0]], body_[cut[0] + 3:]
+                if not (x[:1].isdigit() or y[:1].isdigit()):
+                    x, y = sorted([x, y])
+                    return "%s - %s%s" % (x, y, op)
+    return a
+
+
+def _wit(a, tag, r):
+    import re
+    a = re.sub(r"\bx\b", tag, a)
+    if r["enum"]:
+        a = re.sub(r"\bi\b", "i@" + r["seq"], a)
+    return a
